@@ -234,3 +234,43 @@ package corazawaf
 //@   memoize re
 //@ func (*Rule).AddVariableNegation props C13
 //@   memoize re
+
+// ---------------------------------------------------------------- body limits at the transaction level (C10)
+
+// TxReqInv: the request buffer is well formed, holds no more than the transaction's limit, and the buffer's own
+// limit is not below the transaction's (so a write the transaction admits is never refused by the buffer).
+//@ define TxReqInv(tx *Transaction) bool := tx.WAF != nil && tx.requestBodyBuffer != nil && BufInv(tx.requestBodyBuffer) &&
+//@     0 < tx.RequestBodyLimit && tx.requestBodyBuffer.length <= tx.RequestBodyLimit && tx.RequestBodyLimit <= tx.requestBodyBuffer.options.Limit &&
+//@     tx.RequestBodyLimit <= 1099511627776 &&
+//@     (tx.WAF.RequestBodyLimitAction == types.BodyLimitActionReject || tx.WAF.RequestBodyLimitAction == types.BodyLimitActionProcessPartial)
+
+//@ define reqContent(tx *Transaction) string := bufContent(tx.requestBodyBuffer)
+
+// WriteRequestBody (C10): with the engine on and body access on,
+//  - Reject: the body is refused with 413 exactly when the cumulative size reaches the limit, and nothing of the
+//    refused chunk is stored;
+//  - below the limit the chunk is stored completely and in order;
+//  - ProcessPartial: exactly the first (limit - stored) bytes of the chunk are stored.
+//@ func setAndReturnBodyLimitInterruption props C10,C02
+//@   requires tx != nil
+//@   modifies tx.interruption
+//@   ensures result0 != nil && fresh(result0) && result0 == tx.interruption && result0.Status == status && result0.Action == "deny" && result1 == 0 && isnil(result2)
+
+//@ func (*Transaction).WriteRequestBody props C10,C02,C07
+//@   requires TxReqInv(tx) && PhaseInv(tx)
+//@   modifies inferred, tx.evalCount
+//@   ensures PhaseInv(tx)
+//@   ensures engineOff: old(tx.RuleEngine) == types.RuleEngineOff ==> result0 == nil && result1 == 0 && isnil(result2) && reqContent(tx) == old(reqContent(tx))
+//@   ensures noAccess: !old(tx.RequestBodyAccess) ==> result0 == nil && result1 == 0 && isnil(result2) && reqContent(tx) == old(reqContent(tx))
+//@   ensures refused: old(tx.RuleEngine) != types.RuleEngineOff && old(tx.RequestBodyAccess) && old(tx.WAF.RequestBodyLimitAction) == types.BodyLimitActionReject &&
+//@       old(tx.requestBodyBuffer.length) < old(tx.RequestBodyLimit) && old(tx.requestBodyBuffer.length) + len(b) >= old(tx.RequestBodyLimit) ==>
+//@       result0 != nil && result0.Status == 413 && result1 == 0
+//@   ensures stored: old(tx.RuleEngine) != types.RuleEngineOff && old(tx.RequestBodyAccess) && isnil(result2) &&
+//@       old(tx.requestBodyBuffer.length) + len(b) < old(tx.RequestBodyLimit) ==> result1 == len(b) && reqContent(tx) == old(reqContent(tx)) + old(str(b))
+//@   ensures partial: old(tx.RuleEngine) != types.RuleEngineOff && old(tx.RequestBodyAccess) && isnil(result2) &&
+//@       old(tx.WAF.RequestBodyLimitAction) == types.BodyLimitActionProcessPartial &&
+//@       old(tx.requestBodyBuffer.length) < old(tx.RequestBodyLimit) && old(tx.requestBodyBuffer.length) + len(b) >= old(tx.RequestBodyLimit) ==>
+//@       result1 == old(tx.RequestBodyLimit) - old(tx.requestBodyBuffer.length) &&
+//@       reqContent(tx) == old(reqContent(tx)) + old(str(b))[0:old(tx.RequestBodyLimit) - old(tx.requestBodyBuffer.length)]
+//@   ensures full: old(tx.RuleEngine) != types.RuleEngineOff && old(tx.RequestBodyAccess) &&
+//@       old(tx.requestBodyBuffer.length) == old(tx.RequestBodyLimit) ==> result1 == 0 && reqContent(tx) == old(reqContent(tx))
